@@ -58,3 +58,7 @@ def run_field(case):
     f = case["f"]
     pos = sorted({m.start() for m in re.finditer(k["escape_pattern"], f)}) if k["escape_pattern"] else []
     return {"text": B().escape_and_quote_field(f), "pos": pos}
+
+def run_strop(case):
+    from impl.c01 import run_strop as f
+    return f(case)
